@@ -30,6 +30,8 @@ WELL_KNOWN_INSTANCE_OK = {('StorageCommitment.n_action', 'affected_sop_instance_
 def run(repo, rep):
     from ..pitfalls import memo_rule as _memo_rule
     _memo_rule(repo, rep, 'C17', 'C17.Z1')
+    from ..pitfalls import log_rule as _log_rule
+    _log_rule(repo, rep, 'C17', 'C17.Z2')
     sc = repo.module('sopclass')
     rep.rule('C17.P8', 'no service function reads an ``except ... as name`` variable after its handler ended (the name is unbound '
              'there: the provider would raise instead of answering)', 1)
